@@ -249,9 +249,15 @@ struct Sched {
     void log_line(const std::string &s) {
         if (!quiet) (*out) << s << "\n";
     }
+    // optional "logical agent" tag set by the harness (which contender's code is running on this thread)
+    static int &tag() {
+        static thread_local int t = -1;
+        return t;
+    }
     void log_op(const std::string &s) {
         if (!active || self_id < 0 || in_assert) return;
-        log_line("s " + std::to_string(self_id) + " " + s);
+        int tg = tag();
+        log_line("s " + std::to_string(self_id) + (tg >= 0 ? " a" + std::to_string(tg) : "") + " " + s);
     }
 
     // run all spawned threads to completion under the schedule; returns false on deadlock
@@ -331,7 +337,7 @@ public:
     T exchange(T v, std::memory_order o = std::memory_order_seq_cst) noexcept {
         T r = _v;
         _v = v;
-        op("xchg", r);
+        op2("xchg", r, v);
         return r;
     }
     bool compare_exchange_strong(T &expected, T desired, std::memory_order = std::memory_order_seq_cst,
@@ -339,7 +345,7 @@ public:
         bool ok = (_v == expected);
         T seen = _v;
         if (ok) _v = desired; else expected = _v;
-        op(ok ? "cas+" : "cas-", seen);
+        op2(ok ? "cas+" : "cas-", seen, desired);
         return ok;
     }
     bool compare_exchange_weak(T &expected, T desired, std::memory_order a = std::memory_order_seq_cst,
@@ -378,6 +384,12 @@ public:
     T raw() const { return _v; }
 
 private:
+    void op2(const char *kind, const T &seen, const T &desired) const {
+        auto &s = vshim::S();
+        if (!s.active || vshim::self_id < 0 || vshim::in_assert) return;
+        s.log_op(std::string(kind) + " " + s.obj_name(this) + " " + vshim::val_str(seen) + ">" + vshim::val_str(desired));
+        s.yield();
+    }
     void op(const char *kind, const T &seen) const {
         auto &s = vshim::S();
         if (!s.active || vshim::self_id < 0 || vshim::in_assert) return;
